@@ -118,3 +118,16 @@ Proof.
   destruct P as (P & _). unfold h265_is_partition_head. rewrite P. unfold u16. rewrite Z.mod_small by lia.
   rewrite Hty. reflexivity.
 Qed.
+
+(* ---- VP9: the B bit ---- *)
+From RTP Require Import Model.Vp9 Proofs.C12_Vp9 Proofs.C12_Nonflex.
+
+Theorem vp9_flex_head first last rest : vp9_is_partition_head (Some (flex_b0 first last :: rest)) = first.
+Proof. unfold vp9_is_partition_head, flex_b0, bit_set. destruct first, last; reflexivity. Qed.
+
+Theorem vp9_nonflex_head pid non_key first last w h c :
+  vp9_is_partition_head (Some (nonflex_hdr pid non_key first last w h ++ c)) = first.
+Proof.
+  unfold nonflex_hdr. cbn [app]. unfold vp9_is_partition_head, nonflex_b0, bit_set.
+  destruct non_key, first, last; reflexivity.
+Qed.
